@@ -22,8 +22,8 @@ RULE = ('span pairs: old span = every prefix (quick: length 0..3, thorough 0..5)
 TRUSTED = ['label / value encoding harness/locate_common.py and harness/props/C12.py',
            'identity scan of the result against the original (np.shares_memory, `is` on attributes and object cells)',
            'for the pandas mixin the recorded answers of Series.reindex and of the casting assignment are the model\'s oracles']
-ASSUMPTIONS = ['the conversion of a fill value to a dtype (bool()/int()/str() + np.full) is CPython/NumPy behaviour: tabulated in Reindex.cast_tbl on the '
-               'generator\'s palette and exercised entry by entry',
+ASSUMPTIONS = ['the conversion of a fill value to a dtype (bool()/int()/str() + np.full(n, value, dtype)) is CPython/NumPy behaviour: tabulated in '
+               'Reindex.cast_tbl on the generator\'s palette (incl. NumPy not converting the value when n = 0) and exercised entry by entry',
                'pandas get_loc / __contains__ answers are recorded per case and handed to the model as its oracle tables',
                'the original object is an immutable value in the functional model: that it is unchanged is observed on the implementation (snapshot '
                'before / after reindex and after overwriting every array and list of the result), sharing is modelled by identity tags']
